@@ -58,6 +58,11 @@ type Parser struct {
 	curToken  token.Token
 	peekToken token.Token
 
+	// prevToken and backedUp let the parser step back by one token
+	prevToken   token.Token
+	backedUp    token.Token
+	hasBackedUp bool
+
 	prefixParseFns map[token.TokenType]prefixParseFn
 	infixParseFns  map[token.TokenType]infixParseFn
 
@@ -266,8 +271,24 @@ func (p *Parser) newError(line uint, msg string, args ...any) {
 }
 
 func (p *Parser) nextToken() {
+	p.prevToken = p.curToken
 	p.curToken = p.peekToken
+
+	if p.hasBackedUp {
+		p.peekToken = p.backedUp
+		p.hasBackedUp = false
+		return
+	}
+
 	p.peekToken = p.l.NextToken()
+}
+
+// backUp undoes the last call of nextToken
+func (p *Parser) backUp() {
+	p.backedUp = p.peekToken
+	p.hasBackedUp = true
+	p.peekToken = p.curToken
+	p.curToken = p.prevToken
 }
 
 func (p *Parser) parseIdentifier() ast.Expression {
@@ -925,6 +946,7 @@ func (p *Parser) parseForStmt() *ast.ForStmt {
 	stmt.Block = p.parseBlockStmt()
 
 	if p.peekTokenIs(token.ELSE) {
+		p.nextToken() // move to "@else"
 		p.nextToken() // skip "@else"
 		stmt.Alternative = p.parseBlockStmt()
 	}
@@ -967,6 +989,7 @@ func (p *Parser) parseEachStmt() *ast.EachStmt {
 	stmt.Block = p.parseBlockStmt()
 
 	if p.peekTokenIs(token.ELSE) {
+		p.nextToken() // move to "@else"
 		p.nextToken() // skip "@else"
 		stmt.Alternative = p.parseBlockStmt()
 	}
@@ -980,6 +1003,13 @@ func (p *Parser) parseEachStmt() *ast.EachStmt {
 
 func (p *Parser) parseBlockStmt() *ast.BlockStmt {
 	stmt := &ast.BlockStmt{Token: p.curToken}
+
+	// An empty block. Step back, so that the directive that
+	// closes the block is the next token, like after other blocks
+	if p.curTokenIs(token.END) || p.curTokenIs(token.ELSE) || p.curTokenIs(token.ELSE_IF) {
+		p.backUp()
+		return stmt
+	}
 
 	for !p.curTokenIs(token.END) && !p.curTokenIs(token.EOF) {
 		block := p.parseStatement()
